@@ -9,7 +9,7 @@ from ..fmt import mdl
 LEVEL = "exploration"
 RULE = ("random models: versions 5 and 6, 1..3 LODs, 1..4 meshes per LOD, declarations drawn from every reader-supported (usage,type) pair over 1..3 streams with random element "
         "offsets and strides, random vertex / index buffer bytes, sub-mesh splits, material / bone / attribute names, bone tables (fixed 64-entry v5, counted v6), shapes on meshes with "
-        "start_index 0, element ids, padding; pattern sweeps enumerating all 65536 half patterns and all 256 byte values in every component position. Oracle: per-component accept sets "
+        "start_index 0, element ids, padding, declarations filled to all 16 slots, terrain-shadow mesh / sub-mesh tables, v6 bone tables of up to 300 entries, up to 257 bones; pattern sweeps enumerating all 65536 half patterns and all 256 byte values in every component position. Oracle: per-component accept sets "
         "(IEEE half exact, f32 by bits, bytes, u8/255 within 1 ulp; documented leniencies for BiTangent / BlendWeights Byte4,UShort4 / BlendIndices UShort4 / Tangent), index lists, sub-mesh "
         "ranges, raw streams, names, shape morph deltas. non-trivial = model with >= 2 meshes or >= 2 streams or a shape; distinct = digest of the file")
 ASSUMPTIONS = ["MDL layout as documented (Lumina/Penumbra/TexTools); v6 bone-table / bone-map layout as the reader implements it (validated by probe)",
@@ -24,7 +24,7 @@ def plan(tier):
     return [("debug", 16, dict(n=190, maxv=65535, sweep="full")), ("release", 4, dict(n=120, maxv=20000, sweep="none")), ("asan", 4, dict(n=20, maxv=3000, sweep="none"))]
 
 
-def gen_decl(rng, nstreams, pairs=None, need_position=None):
+def gen_decl(rng, nstreams, pairs=None, need_position=None, fill=0):
     pairs = pairs or mdl.READER_PAIRS
     by_usage = {}
     for u, t in pairs:
@@ -45,6 +45,16 @@ def gen_decl(rng, nstreams, pairs=None, need_position=None):
             s = min(range(nstreams), key=lambda k: cursor[k])
         els.append((s, cursor[s], t, u, 0))
         cursor[s] += mdl.TYPE_SIZE[t]
+    # fill up to `fill` elements (16 = every slot of the declaration before its terminator) with further Tangent elements:
+    # they occupy slots and stream bytes but have no field in the public vertex
+    ui = 1
+    while len(els) < fill:
+        s = min(range(nstreams), key=lambda k: cursor[k])
+        if cursor[s] + 4 > 250:
+            break
+        els.append((s, cursor[s], mdl.BYTEFLOAT4, mdl.TANGENT, ui))
+        cursor[s] += 4
+        ui += 1
     strides = [min(255, cursor[s] + rng.choice([0, 0, 2, 5])) for s in range(nstreams)]
     for s in range(nstreams):
         if strides[s] == 0:
@@ -58,7 +68,9 @@ def nice_f32(rng):
     return mdl.f32bits(rng.choice([0.0, 1.0, -1.0, 0.5, 2.0, -3.0, 10.0, 0.25, 100.0, -0.125]) + rng.randrange(-8, 9))
 
 
-def gen_model(rng, maxv, pairs=None, version=None, canonical=False):
+def gen_model(rng, maxv, pairs=None, version=None, canonical=False, wide=False):
+    """wide: also table shapes only the parser has to cope with (C06): full 16-element declarations, terrain-shadow tables,
+    bone tables beyond 64 entries (counted v6 form), many bones / materials / attributes"""
     version = version or rng.choice([0x1000005, 0x1000005, 0x1000006])
     nl = rng.choice([1, 1, 2, 3])
     lods = []
@@ -69,7 +81,8 @@ def gen_model(rng, maxv, pairs=None, version=None, canonical=False):
         for mi in range(rng.choice([1, 1, 2, 4])):
             nstreams = rng.choice([1, 2, 2, 3])
             shape_mesh = has_shapes and mi == 0
-            els, strides = gen_decl(rng, nstreams, pairs, need_position=[mdl.SINGLE3, mdl.SINGLE4] if shape_mesh else None)
+            fill = rng.choice([0, 0, 0, 0, 9, 15, 16, 16]) if wide else 0
+            els, strides = gen_decl(rng, nstreams, pairs, need_position=[mdl.SINGLE3, mdl.SINGLE4] if shape_mesh else None, fill=fill)
             k = rng.random()
             vcount = rng.choice([0, 1, 2, 3, 17]) if k < 0.3 else rng.randint(1, min(300, maxv)) if (k < 0.9 or maxv <= 300) else rng.randint(300, maxv)
             vcount = min(vcount, maxv)
@@ -102,6 +115,17 @@ def gen_model(rng, maxv, pairs=None, version=None, canonical=False):
              element_ids=[(rng.getrandbits(16), 0, 0.0, 1.0, 2.0, 0.0, 0.0, 0.0) for _ in range(rng.choice([0, 0, 2]))], gap=0 if canonical else rng.choice([0, 0, 16]),
              header=dict(flags1=rng.choice([0x80, 0x40, 0x20, 0x10, 8, 4, 2, 1]), flags2=rng.choice([0, 0x80, 0x40, 0x20, 0x10, 8, 4, 2, 1]), radius=rng.random() * 10,
                          unknown7=rng.getrandbits(16), bg_change=rng.randrange(256)), extra_strings=["unused_string"] if rng.random() < 0.3 else [])
+    if wide:
+        if rng.random() < 0.35:
+            m["terrain_shadow_meshes"] = [rng.randbytes(20) for _ in range(rng.choice([0, 1, 2, 7, 255]))]
+            m["terrain_shadow_submeshes"] = [rng.randbytes(12) for _ in range(rng.choice([0, 1, 3, 300]))]
+        if rng.random() < 0.3:
+            big = [65, 128, 300] if version >= 0x1000006 else [63, 64]
+            m["bone_tables"] = [[rng.randrange(400) for _ in range(rng.choice(big + [1, 64]))] for _ in range(rng.choice([1, 3, 70]))]
+        if rng.random() < 0.15:
+            m["bones"] = ["j_bone_%03d" % i for i in range(rng.choice([64, 65, 130, 257]))]
+            m["attributes"] = ["atr_%03d" % i for i in range(rng.choice([0, 33, 70]))]
+            m["submesh_bone_map"] = [rng.randrange(300) for _ in range(rng.choice([0, 64, 257, 1000]))]
     shapes = []
     if has_shapes:
         for si in range(rng.randint(1, 2)):
@@ -218,6 +242,16 @@ def classes_of(m):
                 cl.add("pair:%s/%s" % (mdl.USAGE_NAME[u], mdl.TYPE_NAME[t]))
     if m["shapes"]:
         cl.add("shapes")
+    if any(len(me["elements"]) == 16 for l in m["lods"] for me in l):
+        cl.add("declaration:16-elements")
+    if m.get("terrain_shadow_meshes"):
+        cl.add("terrain-shadow-meshes")
+    if m.get("terrain_shadow_submeshes"):
+        cl.add("terrain-shadow-submeshes")
+    if any(len(t) > 64 for t in m.get("bone_tables", [])):
+        cl.add("bone-table:>64")
+    if len(m.get("bones", [])) > 64:
+        cl.add("bones:>64")
     return sorted(cl)
 
 
@@ -272,7 +306,7 @@ def sweep_models(rng, which):
 def shard(ctx):
     rng, P = ctx.rng, ctx.params
     for i in range(P["n"]):
-        m = gen_model(rng, P["maxv"])
+        m = gen_model(rng, P["maxv"], wide=True)
         run_model(ctx, m, "random")
     if ctx.index == 0 and P["sweep"] != "none":
         for label, meshes in sweep_models(rng, P["sweep"]):
